@@ -686,6 +686,54 @@ pub fn build(seed: u64, size: usize) -> Pool {
         }
     }
 
+    let rc = |rng: &mut Rng| -> (F, F, F) {
+        let (lon, lat) = random_lonlat(rng);
+        let (t, p) = (lon.to_radians(), (90.0 - lat).to_radians());
+        (F::of(p.sin() * t.cos()), F::of(p.sin() * t.sin()), F::of(p.cos()))
+    };
+    // (j) list-valued arguments: the same elements in another order, rotated, reversed, with a
+    //     repeated closing element (an order-insensitive key or hash would confuse them)
+    for _ in 0..n(16) {
+        fam += 1;
+        let v3: Vec<(F, F, F)> = (0..rng.range(3, 5)).map(|_| rc(&mut rng)).collect();
+        let mut rev = v3.clone();
+        rev.reverse();
+        let mut rot = v3.clone();
+        rot.rotate_left(1);
+        let mut closed = v3.clone();
+        closed.push(v3[0]);
+        let mut swapped = v3.clone();
+        swapped.swap(1, 2);
+        for pts in [v3.clone(), rev, rot, closed, swapped.clone()] {
+            pushf(&mut ops, Op::SphPolyArea { pts }, 255, fam);
+        }
+        let t = F::of(rng.uniform(0.0, 3.0));
+        let tri = vec![v3[0], v3[1], v3[2]];
+        for pts in [tri.clone(), vec![tri[0], tri[2], tri[1]], vec![tri[1], tri[2], tri[0]], vec![tri[2], tri[1], tri[0]]] {
+            pushf(&mut ops, Op::SphTriShape { pts, n: 2, closed: false, t }, 255, fam);
+        }
+        let c0 = (rng.uniform(-0.5, 0.5), rng.uniform(-0.5, 0.5));
+        let verts: Vec<(F, F)> = (0..5)
+            .map(|i| {
+                let a = (i as f64) * 2.0 * PI / 5.0 + rng.uniform(-0.2, 0.2);
+                (F::of(c0.0 + 0.3 * a.cos()), F::of(c0.1 + 0.3 * a.sin()))
+            })
+            .collect();
+        let (px, py, k) = (F::of(c0.0 + 0.05), F::of(c0.1 - 0.05), F::of(1.5));
+        let mut vrev = verts.clone();
+        vrev.reverse();
+        let mut vrot = verts.clone();
+        vrot.rotate_left(2);
+        for vs in [verts.clone(), vrev, vrot] {
+            pushf(&mut ops, Op::PentagonShapeOps { verts: vs.clone(), px, py, k }, 255, fam);
+            pushf(&mut ops, Op::NormalizeLongitudes { pts: vs.iter().map(|(x, y)| (F::of(x.v() * 100.0 + 150.0), F::of(y.v() * 100.0))).collect() }, 255, fam);
+        }
+        let p = (F::of(c0.0), F::of(c0.1));
+        pushf(&mut ops, Op::Barycentric { p, tri: vec![verts[0], verts[1], verts[2]] }, 255, fam);
+        pushf(&mut ops, Op::Barycentric { p, tri: vec![verts[0], verts[2], verts[1]] }, 255, fam);
+        pushf(&mut ops, Op::Barycentric { p, tri: vec![verts[2], verts[0], verts[1]] }, 255, fam);
+    }
+
     // ---- poison siblings: for members of each family, the same call with ONE argument made
     //      invalid (error paths taken between near-identical valid calls)
     {
@@ -786,11 +834,6 @@ pub fn build(seed: u64, size: usize) -> Pool {
 
     // ---- low-level public functions
     push(&mut ops, Op::Quaternions, 255);
-    let rc = |rng: &mut Rng| -> (F, F, F) {
-        let (lon, lat) = random_lonlat(rng);
-        let (t, p) = (lon.to_radians(), (90.0 - lat).to_radians());
-        (F::of(p.sin() * t.cos()), F::of(p.sin() * t.sin()), F::of(p.cos()))
-    };
     for _ in 0..n(16) {
         let c0 = (rng.uniform(-0.5, 0.5), rng.uniform(-0.5, 0.5));
         let nv = if rng.pct(70) { 5 } else { 3 };
